@@ -201,6 +201,15 @@ def analyse(stage, files=None, entry_file=None):
             continue                    # only what the generation stage can reach
         calls = sorted([c for c in ast.walk(fn) if isinstance(c, ast.Call)], key=lambda c: (c.lineno, c.col_offset))
         seeded = False
+        # generators created inside the function body from a literal seed
+        local_rngs = set()
+        for n in ast.walk(fn):
+            if isinstance(n, ast.Assign) and isinstance(n.value, ast.Call) and ast.unparse(n.value.func) in (
+                    "np.random.RandomState", "np.random.default_rng", "numpy.random.RandomState", "numpy.random.default_rng", "random.Random") \
+                    and n.value.args and isinstance(n.value.args[0], ast.Constant):
+                for t in n.targets:
+                    if isinstance(t, ast.Name):
+                        local_rngs.add(t.id)
         for c in calls:
             f = ast.unparse(c.func)
             if f == "np.random.seed":
@@ -209,6 +218,11 @@ def analyse(stage, files=None, entry_file=None):
                 if not seeded:
                     unseeded.append("%s:%d" % (name, c.lineno))
                 seeded = False          # one seed per draw
+            elif isinstance(c.func, ast.Attribute) and c.func.attr in ("shuffle", "permutation", "choice", "permuted") and isinstance(c.func.value, ast.Name):
+                # a draw from some generator object: it must be created in this call from a literal seed
+                # (a module-level or default-argument generator carries state from earlier calls)
+                if c.func.value.id not in local_rngs:
+                    unseeded.append("%s:%d" % (name, c.lineno))
         uses = [c for c in calls if ast.unparse(c.func).endswith("sympify") and any(kw.arg == "locals" and ast.unparse(kw.value) == "locs" for kw in c.keywords)]
         if uses:
             writes = [n for n in ast.walk(fn) if isinstance(n, ast.Assign) and any(isinstance(t, ast.Subscript) and ast.unparse(t.value) == "locs" for t in n.targets)]
